@@ -258,6 +258,18 @@ class History:
             b0 = self.acc["basis"][0] if (self.acc and self.acc.get("basis")) else ""
             lu = "L" if (j < len(b0) and b0[j] == "0") else "U"
             ops = ["CHGBND h0 %d %s %s" % (j, lu, qs(x[j] + (1 if lu == "L" else -1)))]
+        elif kind == "chgbnd_relax_nonbasic" and nbc:
+            # the bound the non-basic column sits at moves outwards: the cached point stays feasible but need not stay optimal
+            j = self.pick(nbc, det)
+            x = self.xval()
+            b0 = self.acc["basis"][0] if (self.acc and self.acc.get("basis")) else ""
+            lu = "L" if (j < len(b0) and b0[j] == "0") else "U"
+            ops = ["CHGBND h0 %d %s %s" % (j, lu, qs(x[j] + (-2 if lu == "L" else 2)))]
+        elif kind == "chgbnd_loose_basic" and bc:
+            # a bound of a basic column that does not cut off the cached point
+            j = self.pick(bc, det)
+            x = self.xval()
+            ops = ["CHGBND h0 %d %s" % (j, "U %s" % qs(x[j] + 1) if (det or rng.random() < 0.5) else "L %s" % qs(x[j] - 1))]
         elif kind == "chgbnd_cut_basic" and bc:
             j = self.pick(bc, det)
             x = self.xval()
@@ -311,10 +323,10 @@ class History:
 
 
 EDIT_KINDS = ["chgcoef_basic", "chgcoef_nonbasic", "sense_basic", "sense_tight", "delrow_basic", "delrow_tight", "delrows_basic2", "addrow_violated", "addrow_slack",
-              "chgbnd_nonbasic", "chgbnd_cut_basic", "chgobj_basic", "chgobj_nonbasic", "chgrhs", "to_range", "chgrange", "objsense", "addcol", "newcol",
+              "chgbnd_nonbasic", "chgbnd_cut_basic", "chgbnd_relax_nonbasic", "chgbnd_loose_basic", "chgobj_basic", "chgobj_nonbasic", "chgrhs", "to_range", "chgrange", "objsense", "addcol", "newcol",
               "delcol_basic", "delcol_nonbasic", "loadbasis_slack", "loadbasis_kept", "pricing", "scaling"]
 EXH_KINDS = ["chgcoef_basic", "chgcoef_nonbasic", "sense_basic", "sense_tight", "delrow_basic", "delrow_tight", "addrow_violated", "chgbnd_nonbasic",
-             "chgbnd_cut_basic", "chgobj_basic", "chgrhs", "to_range", "objsense", "addcol", "delcol_basic", "delcol_nonbasic", "loadbasis_slack"]
+             "chgbnd_cut_basic", "chgbnd_relax_nonbasic", "chgbnd_loose_basic", "chgobj_basic", "chgrhs", "to_range", "objsense", "addcol", "delcol_basic", "delcol_nonbasic", "loadbasis_slack"]
 
 SEED_LPS = [
     mk("seedA", True, [(3, 0, 10), (2, 0, 10), (4, 0, 10)], [("L", 12, 0, [(0, 3), (1, 2), (2, 1)]), ("R", 2, 6, [(0, 1), (1, 1), (2, 2)]), ("G", 1, 0, [(0, 1), (2, 1)])]),
